@@ -1,12 +1,16 @@
 //! Component registry: one module per modelled component.
 pub mod eval;
 pub mod front;
+pub mod gcheap;
+pub mod session;
 pub mod span;
 
 pub fn dispatch(comp: &str, args: &[String]) -> Option<String> {
     match comp {
         "eval" => Some(eval::handle(args)),
         "front" => Some(front::handle(args)),
+        "gcheap" => Some(gcheap::handle(args)),
+        "session" => Some(session::handle(args)),
         "span" => Some(span::handle(args)),
         _ => None,
     }
